@@ -870,6 +870,31 @@ theorem explicify_keeps_atoms (m m' : Mol) (h : explicify m = .ok m') :
       subst h
       exact ⟨(n :: tl).length, ChythonModel.Proofs.C04Standardize.addHydrogens_core (n :: tl) _ m⟩
 
+/-- **No neighbour dict is overwritten.** After `explicify_hydrogens` every existing `_bonds[n]` is the old dict followed by
+    single bonds to atoms whose numbers are larger than every old number — on any numbering no existing bond is lost, replaced or
+    left one-sided by a new atom taking the place of an old one. -/
+theorem explicify_keeps_bonds (m m' : Mol) (h : explicify m = .ok m') (n : Nat) (row : List (Nat × Bond))
+    (hr : m.adj.lookup n = some row) :
+    ∃ ext, m'.adj.lookup n = some (row ++ ext) ∧
+      ∀ kb ∈ ext, (∀ x ∈ m.ids, x < kb.1) ∧ kb.2 = ⟨1, none⟩ := by
+  simp only [explicify] at h
+  cases ht : toAdd m.atoms with
+  | none => simp [ht] at h
+  | some l =>
+    cases l with
+    | nil =>
+      simp only [ht, Except.ok.injEq] at h
+      subst h
+      exact ⟨[], by simp [hr], by simp⟩
+    | cons a tl =>
+      simp only [ht, Except.ok.injEq] at h
+      subst h
+      obtain ⟨ext, he, hall⟩ := ChythonModel.Proofs.C04Standardize.addHydrogens_rows (a :: tl) (m.ids.foldl max 0 + 1) m n row hr
+      refine ⟨ext, he, fun kb hkb => ⟨fun x hx => ?_, (hall kb hkb).2⟩⟩
+      have h1 := (ChythonModel.Proofs.C04Standardize.le_foldl_max m.ids 0).2 x hx
+      have h2 := (hall kb hkb).1
+      omega
+
 /-- a molecule numbered 2, 5 (gap, not 1..N): the three hydrogens get 6, 7, 8 — not `len + 1 = 3 …`, which would run into atom 5 -/
 example : ((explicify ⟨[(5, {z := 8, implH := some 1}), (2, {z := 6, implH := some 2})],
       [(5, [(2, ⟨1, none⟩)]), (2, [(5, ⟨1, none⟩)])]⟩).toOption.map fun m => m.ids) = some [5, 2, 6, 7, 8] := by decide +kernel
@@ -983,6 +1008,11 @@ example : HConsistent amineBorane := by decide +kernel
 example : (stdRule ⟨[], [(1, 2, 8)], []⟩ [[(1, 2), (2, 4)]] amineBorane).map
     (fun m => (m.atoms.map (·.2.implH), (m.nbrs 2).map (·.2.order), checkValence m)) =
     some ([some 3, some 1, some 3, some 0, some 3, some 3, some 3], [1, 1, 8], []) := by decide +kernel
+
+/-- … and the recount of *both ends* is necessary: the rewrite alone (covalent → coordinate, `atom_fix` empty, no electron state
+    changed) leaves a molecule whose B and N marks are not the rules' counts -/
+example : ((applyMappings ⟨[], [(1, 2, 8)], []⟩ [[(1, 2), (2, 4)]] ⟨amineBorane, [], []⟩).map
+    fun st => (decide (HConsistent st.mol), st.hs)) = some (false, [4, 2]) := by decide +kernel
 
 /-- methanol, a rule protonating the oxygen (`atom_fix = {1: (1, None)}`): O⁺ is recounted to 2 H; a second, overlapping mapping
     is skipped through `seen` -/
